@@ -7,6 +7,7 @@ import (
 	"encoding/json"
 	"flag"
 	"fmt"
+	"github.com/libp2p/go-libp2p/core/peer"
 	"math/rand"
 
 	"github.com/ipfs/go-cid"
@@ -29,6 +30,7 @@ type epProv struct {
 
 type shape struct {
 	Kind    string   `json:"kind"`
+	Prov    string   `json:"prov"`
 	Prev    bool     `json:"prev"`
 	Addrs   int      `json:"addrs"`
 	Ctx     string   `json:"ctx"`
@@ -71,6 +73,12 @@ func buildAd(s *shape) *schema.Advertisement {
 		Metadata:  sized(s.MD, schema.MaxMetadataLen, 0xD0),
 		IsRm:      s.Rm,
 		Entries:   schema.NoEntries,
+	}
+	switch s.Prov {
+	case "cidform": // the same peer ID, spelled as a CID
+		ad.Provider = peer.ToCid(ids.Peer("c13-prov")).String()
+	case "text":
+		ad.Provider = "not a peer ID at all"
 	}
 	if s.Prev {
 		ad.PreviousID = link("prev")
